@@ -206,6 +206,7 @@ class SequenceBasedRoutingProblem(RoutingProblem):
         Get the unique id/index of the binary variable given the "tuple" indexing
         Return of None means the tuple corresponds to a fixed variable
         """
+        self.enumerate_variables()
         index = self.var_mapping_inverse[vehicle_index, sequence_index, node_index]
         if index < 0:
             return None
@@ -214,6 +215,7 @@ class SequenceBasedRoutingProblem(RoutingProblem):
 
     def get_var_tuple_index(self, var_index):
         """Inverse of get_var_index"""
+        self.enumerate_variables()
         try:
             return self.var_mapping[var_index]
         except IndexError:
@@ -687,6 +689,7 @@ class SequenceBasedRoutingProblem(RoutingProblem):
 
         solution: binary vector corresponding to a solution
         """
+        self.enumerate_variables()
         soln_var_indices = np.flatnonzero(solution)
         if soln_var_indices.size == 0:
             logger.info("A strange game. The only winning move is not to play")
